@@ -10,17 +10,24 @@
      - structural soundness of acceptance: an accepted script has balanced brackets, no pending
        command, no pending expectation (C01_accept_final_state); a script is rejected as soon as
        a token does not fit (the machine is a fold over tokens that stops at the first failure).
-   Full statements C01_complete / C01_sound (DESIGN.md Appendix B) relate [parse] to the RFC 5228
-   generic grammar; they are NOT proved here — the executable oracle harness/sieve_spec.py (generic
-   grammar + frozen signatures) is compared with the implementation on the exhaustive token
-   enumeration and the generated scripts by the check, and the model is compared with the
-   implementation on the same inputs. *)
+     - completeness for whole scripts (sieve/CompleteTree.v): every sequence of commands derivable in the
+       grammar [wf_cmds] -- `name args ;` with legal, complete arguments; `require` extending the loaded
+       extensions for what follows; controls with one test and a block; tests with arguments, one-test
+       tests (not) and parenthesised test lists (anyof / allof), nested to any depth; blocks nested to
+       any depth; elsif / else only after the commands they must follow -- is accepted, with any layout
+       (C01_script_complete, C01_parse_script, C01_layout_insensitive);
+     - parse_total (props/C02.v): every other outcome is a SieveParseError, never a crash or a hang.
+   The converse (soundness of acceptance with respect to the RFC 5228 generic grammar) is NOT proved in
+   general: the structural theorem C01_accept_final_state is, and the executable oracle
+   harness/sieve_spec.py (generic grammar + frozen signatures) is compared with the implementation on the
+   exhaustive token enumeration, the structure cases and the generated scripts by the check, and the model
+   is compared with the implementation on the same inputs. *)
 From Coq Require Import String.
 From Coq Require Import List NArith Bool Arith.
 From SV Require Import Bytes Lexer Tables ArgCheck ArgSpec Machine Printer GenTables.
 Import ListNotations.
 Local Open Scope nat_scope.
-From SV Require Import ArgCheckFacts GateFacts PositionFacts TotalFacts CompleteFacts.
+From SV Require Import ArgCheckFacts GateFacts PositionFacts TotalFacts CompleteFacts CompleteTree CompleteExamples.
 
 (* feeding an argument sequence to check_next_arg: complete / incomplete / rejected exactly as the specification says, with the same recorded values *)
 Theorem C01_argcheck_correct :
@@ -120,6 +127,61 @@ Theorem C01_action_on_text :
   legal d [] args = LComplete am em -> parse T text = Accept [Node d am em [] []].
 Proof. exact CompleteFacts.parse_single_action. Qed.
 Print Assumptions C01_action_on_text.
+
+(* every well-formed test (arguments, not, anyof/allof with nesting) drives the machine to the point where the test is left, with exactly its node *)
+Theorem C01_run_test :
+  forall (T : tables) (L : list bytes),
+  twf_tables T = true -> forall (t : gtest) (n : node), wf_test T L t n -> Pst T L t n.
+Proof. exact CompleteTree.run_test. Qed.
+Print Assumptions C01_run_test.
+
+(* every well-formed command sequence, at top level or inside a block, is consumed and emits exactly its nodes *)
+Theorem C01_run_cmds :
+  forall T : tables,
+  twf_tables T = true ->
+  forall (L : list bytes) (prev : option bytes) (cs : list gcmd) (ns : list node)
+    (L' : list bytes), wf_cmds T L prev cs ns L' -> Pcmds T L prev cs ns L'.
+Proof. exact CompleteTree.run_cmds. Qed.
+Print Assumptions C01_run_cmds.
+
+(* whole scripts: accepted from the initial state, ending with an empty stack, nothing expected, balanced brackets *)
+Theorem C01_script_complete :
+  forall (T : tables) (cs : list gcmd) (ns : list node) (L' : list bytes),
+  twf_tables T = true ->
+  wf_cmds T [] None cs ns L' ->
+  exists st' : pstate,
+    steps T p_init (flat_map toks_cmd cs) = Some st' /\
+    p_stack st' = [] /\
+    p_expected st' = None /\ p_brackets st' = [] /\ p_result st' = ns /\ p_loaded st' = L'.
+Proof. exact CompleteTree.script_complete. Qed.
+Print Assumptions C01_script_complete.
+
+(* on texts: any text that lexes to the tokens of a well-formed script parses to exactly its tree *)
+Theorem C01_parse_script :
+  forall (T : tables) (text : bytes) (cs : list gcmd) (ns : list node) (L' : list bytes),
+  twf_tables T = true ->
+  snd (lex text) = None ->
+  map strip_pos (fst (lex text)) = flat_map toks_cmd cs ->
+  wf_cmds T [] None cs ns L' -> parse T text = Accept ns.
+Proof. exact CompleteTree.parse_script. Qed.
+Print Assumptions C01_parse_script.
+
+(* two texts that lex to the same tokens (blanks, line endings, positions) get the same verdict, tree and error category *)
+Theorem C01_layout_insensitive :
+  forall (T : tables) (text1 text2 : bytes),
+  twf_tables T = true ->
+  map strip_pos (fst (lex text1)) = map strip_pos (fst (lex text2)) ->
+  snd (lex text1) = None <-> snd (lex text2) = None ->
+  same_outcome (parse T text1) (parse T text2).
+Proof. exact CompleteFacts.layout_insensitive. Qed.
+Print Assumptions C01_layout_insensitive.
+
+(* non-vacuity on the tables generated from /repo: a script with require, if/elsif/else, anyof, not, nested blocks, tags, numbers and lists is derivable, and its tree is what parse returns *)
+Theorem C01_script_example :
+  exists (L' : list bytes) (ns : list node),
+    wf_cmds gen_tables [] None ex_script ns L' /\ parse gen_tables ex_text = Accept ns.
+Proof. exact CompleteExamples.ex_wf. Qed.
+Print Assumptions C01_script_example.
 
 (* an accepted script ends with an empty command stack, balanced brackets and nothing expected *)
 Theorem C01_accept_final_state :
